@@ -572,7 +572,21 @@ def random_partition(rng, items, maxparts=4):
     groups = [[] for _ in range(p)]
     for it in items:
         groups[rng.randrange(p)].append(int(it))
-    return [g for g in groups if g]
+    out = []
+    for g in groups:
+        if not g:
+            continue
+        r = rng.random()
+        if r < 0.35 or len(g) < 3:
+            pass                                 # ascending
+        elif r < 0.65:
+            rng.shuffle(g)                       # any order
+        else:
+            mid = g[1:-1]                        # smallest first, largest last, the others in any order
+            rng.shuffle(mid)
+            g = [g[0]] + mid + [g[-1]]
+        out.append(g)
+    return out
 
 
 def check_asm_lists(ctx, m, minfo, spec, q, rng, facets=False):
